@@ -60,6 +60,10 @@ def finish(a, P, results, seed, t0):
     undecided = [dict(u, unit=r['unit']) for r in results for u in r.get('undecided', [])]
     violations = [dict(v, unit=r['unit']) for r in results for v in r.get('violations', [])]
     bounded = [r for r in results if r.get('kind') == 'bounded']
+    for r in bounded:          # a failing real input found by the bounded tier is a violation with a native replay
+        for k, f in enumerate(r.get('failures', [])):
+            violations.append({'obligation': f'{r["unit"]}#{k}', 'unit': r['unit'], 'model': None,
+                               'replay': {'status': 'reproduced', 'kind': 'end-to-end input on the real code', 'failing_case': f}})
     trusted = sorted({t for r in results for t in r.get('trusted', [])})
     functions = [f for r in results for f in r.get('functions', [])]
     # known findings: match by property + obligation pattern
